@@ -7,7 +7,7 @@
 From Coq Require Import List String NArith ZArith Bool Permutation.
 From GoMC Require Model.C20 Proofs.C20 Proofs.C20_ll Proofs.C20_term Proofs.C20_order Proofs.C20_top.
 From GoMC Require Import Base.Bytes Base.Dec Gen.Consts Gen.Gate Model.C05 Model.C07 Model.C19_syntax Model.C19
-  Proofs.C07 Proofs.C19_net Proofs.C19_gate Proofs.C19_play Proofs.C19_disp Proofs.C19_expected Proofs.C19_skel Proofs.C19_reg Proofs.C19_skel_disp Proofs.C19_close Proofs.C19_conn Proofs.C19_closei.
+  Proofs.C07 Proofs.C19_net Proofs.C19_gate Proofs.C19_play Proofs.C19_disp Proofs.C19_expected Proofs.C19_skel Proofs.C19_reg Proofs.C19_skel_disp Proofs.C19_close Proofs.C19_conn Proofs.C19_closei Proofs.C19_accept.
 Import ListNotations.
 Open Scope Z_scope.
 
@@ -163,7 +163,9 @@ Theorem C19_close_server :
   (fuel <= srvdepth s + (List.length (sc_registries c) + 3) * List.length inc + 1)%nat /\
   srv_act offline_uuid c (snd (srv_feed offline_uuid c fuel s inc)) = AHalt.
 Proof. exact srv_always_returns. Qed.
-(* The bot's queue-backed Conn when the connection fails after the packets `wire`: for EVERY scheduling of
+(* [abstract view: the coarse machine qstate/qstep; the guarantees for the real queue are C19_close_conn_c20*,
+   obtained from C20's theorems - a refinement proof between the two machines is not given]
+   The bot's queue-backed Conn when the connection fails after the packets `wire`: for EVERY scheduling of
    the reader goroutine and of the calls of Conn.ReadPacket, what has been returned ++ what is queued ++
    what is still to arrive = wire (order kept, nothing lost), and an error is returned only after every
    packet that arrived has been returned (no lost tail) ... *)
@@ -223,6 +225,29 @@ Theorem C19_cut_outcome :
   b_ph (cut_outcome_bot bc k (join_s2c offl bc sc)) =
     if (k <=? p)%nat then BFailed stLoginRead else if (k <=? p + 1)%nat then BFailed stConfigRead else BJoined.
 Proof. exact cut_outcome_finish_only. Qed.
+
+(* The gate calls AcceptPlayer iff it has read the ServerboundConfigFinishConfiguration frame: in EVERY
+   state reached from the initial state (any bot state b0) by ANY sequence of bot turns, server turns and
+   stops of either side (crun: every interleaving, every stop point), the server is in SJoined exactly
+   when, among the frames it read in the configuration stage (after handshake, login start, login
+   acknowledged; x_sseen logs every read), one has that id and was decoded under the threshold it was
+   packed with.  In particular a connection that ends before the acknowledgement never leads to
+   AcceptPlayer - the negation of what AcceptConn did before 40328f2 (C19_accept_iff_refuted_before_fix). *)
+Theorem C19_accept_iff_configured :
+  forall (offl : list N -> list N) (bc : bcfg) (sc : scfg) (es : list cev) (b0 : bot),
+  let y := crun offl bc sc es (cinit (sys_init b0)) in
+  s_ph (x_s (c_x y)) = SJoined <-> fin_read (x_sseen (c_x y)) = true.
+Proof. exact accept_iff_configured. Qed.
+(* the same for every prefix length of the STOCK transcript, with ANY registries the bot can read *)
+Theorem C19_cut_outcome_stock :
+  forall (offl : list N -> list N) (bc : bcfg) (sc : scfg) (k : nat),
+  sc_cfg sc = CfgStock -> regs_readable bc (sc_registries sc) ->
+  let p := (if compress_on (sc_threshold sc) then 1 else 0)%nat in
+  let n := List.length (sc_registries sc) in
+  (k <= p + n + 2)%nat ->
+  b_ph (cut_outcome_bot bc k (join_s2c offl bc sc)) =
+    if (k <=? p)%nat then BFailed stLoginRead else if (k <=? p + n + 1)%nat then BFailed stConfigRead else BJoined.
+Proof. exact cut_outcome_stock. Qed.
 
 (* The same guarantees obtained from C20 instead of a second model: the queue under warpConn IS C20's
    machine running the programs translated from net/queue/queue.go, with the reader goroutine as the
@@ -554,6 +579,15 @@ Proof.
   repeat constructor; cbn; reflexivity.
 Qed.
 
+(* with the step function AcceptConn had before 40328f2 (the ConfigHandler's error dropped) the invariant
+   behind C19_accept_iff_configured fails at the first end-of-stream in the configuration stage *)
+Example C19_accept_iff_refuted_before_fix :
+  let s := {| s_ph := SConfWait; s_thr := -1; s_proto := 767; s_name := []; s_uuid := [] |} in
+  let seen := [(0, -1, -1); (0, -1, -1); (3, -1, -1)] in
+  ok (s_ph s) seen /\ s_ph (srv_eof_before_fix s) = SJoined /\ fin_read seen = false /\
+  ~ ok (s_ph (srv_eof_before_fix s)) seen /\ ok (s_ph (srv_eof s)) seen.
+Proof. exact accept_iff_refuted_before_fix. Qed.
+
 Print Assumptions C19_join.
 Print Assumptions C19_refuse.
 Print Assumptions C19_status.
@@ -572,6 +606,8 @@ Print Assumptions C19_close_conn_reported.
 Print Assumptions C19_close_interleaved.
 Print Assumptions C19_close_eof_stage.
 Print Assumptions C19_cut_outcome.
+Print Assumptions C19_accept_iff_configured.
+Print Assumptions C19_cut_outcome_stock.
 Print Assumptions C19_close_conn_c20.
 Print Assumptions C19_close_conn_c20_order.
 Print Assumptions C19_close_conn_c20_terminates.
